@@ -26,4 +26,5 @@ def run(F, tier):
     rep.findings = [f for f in rep.findings if not (f.rule == "T2" and not f.instance.startswith("text-date"))]
     rep.sample({"U1": "char predicate call sites in the closure of parsers", "count": rep.rules["U1"]["instances"]})
     accept.u6(rep, F, "fields")
+    accept.u7(rep, F, "fields")
     return rep
